@@ -33,9 +33,13 @@ func errClassGo(e string) string {
 // hazardFamily: names that are legal in a schema but awkward in generated Go.
 func hazardFamily() []schema.Named {
 	var out []schema.Named
-	add := func(name string, defs ...*schema.Def) { out = append(out, schema.Named{Name: "hazard/" + name, S: &schema.Schema{Defs: defs}}) }
+	add := func(name string, defs ...*schema.Def) {
+		out = append(out, schema.Named{Name: "hazard/" + name, S: &schema.Schema{Defs: defs}})
+	}
 	fd := func(n string, t schema.Type) schema.Field { return schema.Field{Name: n, Type: t} }
-	st := func(name string, fs ...schema.Field) *schema.Def { return &schema.Def{Kind: "struct", Name: name, Fields: fs} }
+	st := func(name string, fs ...schema.Field) *schema.Def {
+		return &schema.Def{Kind: "struct", Name: name, Fields: fs}
+	}
 	add("lowercase-type-referenced", st("inner", fd("a", schema.Simple("int32"))), st("Outer", fd("i", schema.Simple("inner"))))
 	add("field-named-Size", st("Rec1", fd("Size", schema.Simple("int32"))))
 	add("field-named-size", st("Rec1", fd("size", schema.Simple("int32"))))
